@@ -206,6 +206,16 @@ def make_view(tag, mode):
             raise HTTPForbidden('no-' + tag)
         if mode == 'notfound':
             raise HTTPNotFound('nf-' + tag)
+        if mode == 'urls':
+            # the URLs the application generates for assets under nested specs: shows which cache buster was applied
+            outs = []
+            for a in ('vfc08_pa:static/css/site.css', 'vfc08_pa:static/js/app.js', 'vfc08_pa:static/f.txt', 'vfc08_pb:static/css/site.css'):
+                for fn in ('static_url', 'static_path'):
+                    try:
+                        outs.append(getattr(request, fn)(a))
+                    except Exception as e:
+                        outs.append('%s!%s' % (fn, type(e).__name__))
+            return Response('view=%s;urls=%s' % (tag, ' '.join(outs)))
         text = 'view=%s;%s' % (tag, describe(request, context))
         if mode == 'dict':
             return {'t': text}
@@ -468,6 +478,9 @@ def ensure_packages():
             os.makedirs(os.path.join(d, 'locale'))
             open(os.path.join(d, 'templates', 'page.txt'), 'w').write('page-of-%s' % key)
             open(os.path.join(d, 'static', 'f.txt'), 'w').write('static-of-%s\n' % key)
+            for sub, fn in (('css', 'site.css'), ('js', 'app.js')):
+                os.makedirs(os.path.join(d, 'static', sub))
+                open(os.path.join(d, 'static', sub, fn), 'w').write('%s-of-%s\n' % (fn, key))
             open(os.path.join(d, '__init__.py'), 'w').write('')
             open(os.path.join(d, 'views.py'), 'w').write(
                 'from pyramid.response import Response\n\n\n'
@@ -893,7 +906,10 @@ def apply_stmt(config, st):
         config.override_asset('pyramid:static/', 'pyramid:scaffolds/')
     elif op == 'add_cache_buster':
         from pyramid.static import QueryStringConstantCacheBuster
-        config.add_cache_buster(static_dir(), QueryStringConstantCacheBuster('x'))
+        if st.get('spec'):      # a cache buster on a (possibly nested) asset spec; explicit= both ways
+            config.add_cache_buster(st['spec'], QueryStringConstantCacheBuster(st['tag']), explicit=bool(st.get('explicit')))
+        else:
+            config.add_cache_buster(static_dir(), QueryStringConstantCacheBuster('x'))
     elif op == 'set_authorization_policy':
         from pyramid.authorization import ACLAuthorizationPolicy
         config.set_authorization_policy(ACLAuthorizationPolicy())
@@ -1023,7 +1039,7 @@ def build_variant(stmts, tree, probes, record=True, stages=None):
                 ensure_packages()
             declare_tree(config, stmts, fix_pkg_tree(stmts, [PRE + i for i in range(len(pre))]), rec)
             config.commit()
-        if any(s_.get('pkg') for s_ in stmts):
+        if any(s_.get('pkg') or s_.get('spec') or s_.get('mode') == 'urls' for s_ in stmts):
             ensure_packages()
         if stages is None:
             declare_tree(config, stmts, fix_pkg_tree(stmts, tree), rec)
@@ -1546,6 +1562,8 @@ def gen_program(rng, findings=False):
             stmts.append(dict({'op': op}, **extra))
     if rng.random() < 0.3:
         stmts += gen_pkg_statements(rng)
+    if rng.random() < 0.14:
+        stmts += gen_buster_statements(rng, stmts)
     if len(stmts) > 14:
         # drop surplus statements, but not the declarations other statements refer to
         decl = ('add_route', 'add_view_predicate', 'add_route_predicate', 'add_view_deriver')
@@ -1587,6 +1605,37 @@ def gen_pkg_statements(rng):
     if rng.random() < 0.25:                        # the same relative renderer spec once more, from the application itself
         out.append({'op': 'add_view', 'tag': 'Tpa2', 'name': 'tpa2', 'renderer': 'templates/page.txt', 'mode': 'dict', 'pkg': 'pa'})
     return out
+
+
+BUST_SPECS = [('vfc08_pa:static/', 'tree'), ('vfc08_pa:static/css/', 'css'), ('vfc08_pa:static/js/', 'js'), ('vfc08_pb:static/', 'treeb')]
+
+
+def gen_buster_statements(rng, stmts):
+    """add_static_view + add_cache_buster on NESTED asset specs (a general one and more specific ones, explicit= both
+    ways; never the same (spec, explicit) twice — that pair replaces, it has no discriminator) + a view that answers with
+    request.static_url / static_path of assets under each spec"""
+    out = []
+    if not any(s_['op'] == 'add_static_view' and s_.get('pkg') == 'pa' for s_ in stmts):
+        out.append({'op': 'add_static_view', 'name': 'spa', 'rel': 'static', 'pkg': 'pa'})
+    if rng.random() < 0.4 and not any(s_['op'] == 'add_static_view' and s_.get('pkg') == 'pb' for s_ in stmts):
+        out.append({'op': 'add_static_view', 'name': 'spb', 'rel': 'static', 'pkg': 'pb'})
+    seen = set()
+    out.append({'op': 'add_cache_buster', 'spec': BUST_SPECS[0][0], 'tag': 'tree', 'explicit': rng.random() < 0.25})
+    out.append({'op': 'add_cache_buster', 'spec': BUST_SPECS[1][0], 'tag': 'css', 'explicit': rng.random() < 0.25})
+    for spec, tag in BUST_SPECS:
+        for ex in (False, True):
+            if rng.random() < 0.2:
+                out.append({'op': 'add_cache_buster', 'spec': spec, 'tag': tag + ('X' if ex else ''), 'explicit': ex})
+    uniq = []
+    for st in out:
+        if st['op'] == 'add_cache_buster':
+            k = (st['spec'], bool(st['explicit']))
+            if k in seen:
+                continue
+            seen.add(k)
+        uniq.append(st)
+    uniq.append({'op': 'add_view', 'tag': 'U', 'name': 'urls', 'mode': 'urls'})
+    return uniq
 
 
 def gen_pre(rng, stmts):
@@ -1905,6 +1954,9 @@ def declared_args(stmts, act):
     if st is not None and act['kind'] == 'addPredicate':
         return [[{'add_view_predicate': 'predListView', 'add_route_predicate': 'predListRoute',
                   'add_subscriber_predicate': 'predListSubscriber'}[st['op']], None]]
+    if st is not None and act['kind'] == 'cacheBuster':
+        # a buster is an entry keyed by (spec, explicit); the answer for an asset is the most specific matching entry
+        return [['cacheBusters', '%s|%s' % (st.get('spec') or 'static_dir', bool(st.get('explicit')))]]
     if st is None or act['kind'] != 'addView':
         return []
     out = []
@@ -2183,7 +2235,7 @@ def shrink_case(case, tbl, budget=120):
     # drop optional keys of statements
     for si in range(len(cur['stmts'])):
         for key in list(cur['stmts'][si].keys()):
-            if key in ('op', 'tag', 'name', 'pattern', 'factory', 'permission', 'allowed', 'value', 'pkg', 'rel', 'dotted', 'kind'):
+            if key in ('op', 'tag', 'name', 'pattern', 'factory', 'permission', 'allowed', 'value', 'pkg', 'rel', 'dotted', 'kind', 'spec', 'mode'):
                 continue
             c = json.loads(json.dumps(cur))
             del c['stmts'][si][key]
@@ -2233,6 +2285,23 @@ def _rf_set(kind, defines, prop=False, reify=False):
 RF_SETS = [_rf_set('attr', True), _rf_set('method', True, prop=True), _rf_set('property', True, prop=True, reify=True),
            _rf_set('attr', False), _rf_set('method', True), _rf_set('attr', True, prop=True, reify=True)]
 
+
+BUST_SETS = [   # nested cache-buster specs: every order (quick), every order x include placement (thorough, search)
+    {'stmts': [{'op': 'add_static_view', 'name': 'spa', 'rel': 'static', 'pkg': 'pa'},
+               {'op': 'add_cache_buster', 'spec': 'vfc08_pa:static/', 'tag': 'tree', 'explicit': False},
+               {'op': 'add_cache_buster', 'spec': 'vfc08_pa:static/css/', 'tag': 'css', 'explicit': False},
+               {'op': 'add_cache_buster', 'spec': 'vfc08_pa:static/', 'tag': 'treeX', 'explicit': True},
+               {'op': 'add_view', 'tag': 'U', 'name': 'urls', 'mode': 'urls'}]},
+    {'nest': True, 'stmts': [{'op': 'add_static_view', 'name': 'spa', 'rel': 'static', 'pkg': 'pa'},
+                             {'op': 'add_cache_buster', 'spec': 'vfc08_pa:static/css/', 'tag': 'css', 'explicit': False},
+                             {'op': 'add_cache_buster', 'spec': 'vfc08_pa:static/', 'tag': 'tree', 'explicit': False},
+                             {'op': 'add_view', 'tag': 'U', 'name': 'urls', 'mode': 'urls'}]},
+    {'stmts': [{'op': 'add_static_view', 'name': 'spa', 'rel': 'static', 'pkg': 'pa'},
+               {'op': 'add_cache_buster', 'spec': 'vfc08_pa:static/css/', 'tag': 'cssX', 'explicit': True},
+               {'op': 'add_cache_buster', 'spec': 'vfc08_pa:static/js/', 'tag': 'js', 'explicit': False},
+               {'op': 'add_cache_buster', 'spec': 'vfc08_pa:static/', 'tag': 'tree', 'explicit': False},
+               {'op': 'add_view', 'tag': 'U', 'name': 'urls', 'mode': 'urls'}]},
+]
 
 PKG_SETS = [   # two packages x the same relative spec x include orders and nestings
     {'nest': True, 'stmts': [{'op': 'add_renderer', 'name': '.txt', 'tag': 'TXT', 'kind': 'asset'},
@@ -2497,6 +2566,9 @@ def run(ctx):
     for k in ([0, 1 + ctx.seed % 2] if ctx.tier == 'quick' else range(len(PKG_SETS))):
         for c in permutation_cases(PKG_SETS[k]):
             named.append(('exhaustive-packages-%d' % k, c))
+    for k in ([0] if ctx.tier == 'quick' else range(len(BUST_SETS))):
+        for c in permutation_cases(BUST_SETS[k]):
+            named.append(('exhaustive-busters-%d' % k, c))
     n = ctx.n(300, 3000)
     kk, m = ctx.n(3, 4), ctx.n(2, 3)
     for i in range(n):
@@ -2523,7 +2595,7 @@ def search(ctx):
     saved, ctx.driver_path = ctx.driver_path, None
     try:
         named = [('all-directives', {'stmts': ALL_DIRECTIVES, 'variants': gen_variants(ctx.rng, ALL_DIRECTIVES, 4, 2)})]
-        for k, s in enumerate(SMALL_SETS + RF_SETS + PKG_SETS):
+        for k, s in enumerate(SMALL_SETS + RF_SETS + PKG_SETS + BUST_SETS):
             for c in permutation_cases(s):
                 named.append(('exhaustive-%d' % k, c))
         for i in range(ctx.n(600, 3000)):
